@@ -124,6 +124,14 @@ package rules
 // dispatch through an interface-typed field by the methods of the types stored into it.
 // 13 mutants re-applied on the r10, r11 and r12 shapes are all reported.
 //
+// Robustness pass, fourth set (/verif/preserving/C09/r13..r16, all exit 0 now): a function literal
+// handed to a same-package helper that does nothing with the parameter but call it (callback
+// iterator forEachToken(tokens, fn)) runs synchronously during that call — the lock discipline
+// judges it in the lock state of the enclosing function at the call (c09syncCallbackCall; a `go`
+// of the parameter or a use inside a nested literal disqualifies the helper); stores made by
+// such a literal count for the reserve typestate where the iterator is called; R-C09-7 treats the
+// literal as the body of a loop over the dimensions. 6 mutants on the r15 shape are reported.
+//
 // Fourth round of seeded changes (slips inside refactorings, /verif/seeded/C09/{g,h}):
 //
 //	g  helpers extracted, `now := nowFunc()` left above rl.lock.Lock()
